@@ -239,6 +239,8 @@ class Ctx:
             if sig in printed:
                 continue
             printed.add(sig)
+            if len(printed) > 25:
+                continue
             fn = os.path.join(self.replay_dir, re.sub(r"[^A-Za-z0-9_.=-]+", "_", sig)[:120] + ".json")
             json.dump({"property": self.pid, "signature": sig, "what": what, "replay": replay}, open(fn, "w"), indent=1)
             print("VIOLATION property=%s replay=%s  (%s: %s)" % (self.pid, fn, sig, what), flush=True)
